@@ -155,6 +155,15 @@ def shard(args):
                 errs.append(('tx_incomplete', 'tx %d progress %d/%d' % (k, t['req_progress'], t['res_progress'])))
             if t['status_n'] != ex['ress'][k][1]['status']:
                 errs.append(('status', 'tx %d status %r expected %r' % (k, t['status_n'], ex['ress'][k][1]['status'])))
+            # "transaction i contains request i and response i": every header and trailer field of the two messages, and none of a neighbour's
+            he = []
+            oracle.cmp_headers(he, 'req_header', t['req_headers'], ex['reqs'][k][1]['headers'])
+            rw = ex['ress'][k][0]
+            if b'\n ' not in rw and b'\n\t' not in rw:
+                # (the response parser's treatment of folded lines is heuristic - a continuation that looks like a field starts a new one -
+                # and not part of the ground-truth model: responses with folded lines are judged on X-Id, status and body only)
+                oracle.cmp_headers(he, 'res_header', t['res_headers'], ex['ress'][k][1]['headers'])
+            errs.extend((hk, 'tx %d: %s' % (k, hd)) for hk, hd in he)
             rb = ex['ress'][k][1]['body']
             if t['res_body']['n'] != len(rb):
                 errs.append(('res_body_len', 'tx %d response body %d bytes expected %d' % (k, t['res_body']['n'], len(rb))))
